@@ -4,7 +4,7 @@ diff=$(realpath "$1"); prop=$2; shift 2
 cd /repo || exit 2
 if ! git diff --quiet; then echo "repo dirty, refusing"; exit 2; fi
 git apply "$diff" || { echo "APPLY-FAILED $diff"; exit 2; }
-out=$(cd /verif && bin/vcheck "$prop" "$@" 2>&1); rc=$?
+out=$(cd /verif && VERIF_OUT_DIR=/tmp/verif-mut-out bin/vcheck "$prop" "$@" 2>&1); rc=$?
 git -C /repo checkout -- . 
 tag=$(echo "$out" | grep -m1 -o 'violation tag=[^ ]*')
 case $rc in
